@@ -231,6 +231,8 @@ func stateListOrArrayT(s *scanner, c byte) int {
 		s.step = stateArrayT
 		return scanListType
 	}
+	// only the single letter may stand before the ';': anything longer is an ordinary unquoted string
+	s.step = stateInUnquotedString
 	return stateInUnquotedString(s, c)
 }
 
